@@ -4,9 +4,11 @@ package filtering
 
 // C15 (refresh ‖ admin API): what a refresh does to a list does not depend on
 // what the administrator does to *another* list while the downloads are in
-// progress.  The admin operation (remove the list, switch it off) runs inside
-// the list server's handler of a drawn download, so the interleaving is fixed,
-// not timed.  For every list the operation did not touch: new content is
+// progress, and a list that gets another source meanwhile ends up with what
+// that source delivered.  The admin operation (remove the list, switch it off,
+// re-point it) is started from the list server's handler of a drawn download,
+// so the interleaving is fixed, not timed; it runs in its own goroutine, and
+// the download goes on when the call has ended or has come to wait.  For every list the operation did not touch: new content is
 // stored in normal form, counted and in force; unchanged or failed content
 // changes nothing; and a following refresh of identical content updates
 // nothing and rewrites nothing.
